@@ -10,7 +10,7 @@ TIE = 'Tie.C15'
 DEN = 4096
 SYMS = ['Li', 'Na', 'S']
 RULE = ('cases = (a) random operation sequences (length <= 40) on the real Trajectory API: positions / displacements / cumulative / distances / '
-        'to_volume, apply_drift_correction, mean_squared_displacement and center_of_mass calls, slices with arbitrary start/stop/step (None, negative, out of range, step 0), filter by species subsets, split, extend, '
+        'to_volume, apply_drift_correction, mean_squared_displacement, center_of_mass, metrics and transitions_between_sites calls, slices with arbitrary start/stop/step (None, negative, out of range, step 0), filter by species subsets, split, extend, '
         'on trajectories created in position mode (raw, unwrapped coordinates on the 2^-12 grid) and in displacement mode, every returned array compared '
         'exactly with the Coq store machine; (b) exhaustive comparison of the slice model with CPython slice.indices for len <= 5 (quick) / 8 (thorough) '
         'and start/stop/step in {None, -7..7} / {None, -10..10}; non-trivial = at least 2 representation switches and one derived trajectory')
@@ -50,7 +50,7 @@ def gen_cases(rng, tier):
             i = rng.randrange(len(objs))
             r = rng.random()
             if r < 0.45:
-                ops.append([rng.choice(['pos', 'disp', 'cum', 'dist', 'vol', 'driftcorr', 'msd', 'com']), i])
+                ops.append([rng.choice(['pos', 'disp', 'cum', 'dist', 'vol', 'driftcorr', 'msd', 'com', 'metrics', 'transitions']), i])
             elif r < 0.65:
                 L = objs[i]['frames']
                 ops.append(['slice', i, _opt(rng, -L - 2, L + 2), _opt(rng, -L - 2, L + 2), rng.choice([None, None, 1, 2, 3, -1, -2, 0])])
@@ -142,6 +142,22 @@ def impl(case):
                 t.distances_from_base_position()
             mops.append(['QCum', i])
             results.append(['val', _arr(t.cumulative_displacements)])
+        elif kind == 'transitions':
+            # a site analysis of the first species (reads positions); it may reject the input (no atom ever changes state), which is not our concern here
+            from pymatgen.core import Structure
+            lat = t.get_lattice()
+            try:
+                t.transitions_between_sites(Structure(lattice=lat, species=['Li', 'Li'], coords=[[0.1, 0.1, 0.1], [0.6, 0.6, 0.6]], labels=['A', 'B']),
+                                            species[i][0], site_radius=0.8)
+            except ValueError:
+                pass
+            mops.append(['QPos', i])
+            results.append(['val', _arr(t.positions)])
+        elif kind == 'metrics':
+            mt = t.metrics()
+            mt.speed(), mt.tracer_diffusivity(dimensions=3), mt.vibration_amplitude(), mt.particle_density()
+            mops.append(['QDisp', i])
+            results.append(['val', _arr(t.displacements)])
         elif kind in ('driftcorr', 'msd', 'com'):
             # derived quantities / derived trajectories that must leave their source untouched: the source ends up in
             # displacement mode (they read .displacements), which the model sees as a displacement query
